@@ -70,7 +70,7 @@ func (shmlistScenario) Gen(r *Rng, tier string, opts map[string]string) interfac
 		p.Classes = []listClass{{Size: 12, Slots: 40}}
 	}
 	nt := 2 + r.Intn(3)
-	bias := r.Intn(3) // 0 mixed, 1 alloc/recycle alternation (ABA-prone), 2 exhaust
+	bias := r.Intn(4) // 0 mixed, 1 alloc/recycle alternation (ABA-prone), 2 exhaust, 3 chains (multi-slice alloc, chain recycle, header reuse)
 	for t := 0; t < nt; t++ {
 		th := listThread{Proc: r.Intn(2)}
 		if t < 2 {
@@ -82,6 +82,21 @@ func (shmlistScenario) Gen(r *Rng, tier string, opts map[string]string) interfac
 			c := r.Intn(len(p.Classes))
 			sz := p.Classes[c].Size
 			switch bias {
+			case 3:
+				switch r.Intn(10) {
+				case 0, 1:
+					op = listOp{Kind: "allocn", Size: sz*uint32(2+r.Intn(3)) + uint32(r.Intn(5))}
+				case 2, 3:
+					op = listOp{Kind: "alloc", Size: sz}
+				case 4, 5, 6:
+					op = listOp{Kind: "chain", N: 2 + r.Intn(4)}
+				case 7:
+					op = listOp{Kind: "reset", Which: r.Intn(4)}
+				case 8:
+					op = listOp{Kind: "recycle", Which: r.Intn(4)}
+				default:
+					op = listOp{Kind: "verify"}
+				}
 			case 1:
 				switch r.Intn(8) {
 				case 0, 1, 2:
@@ -121,7 +136,11 @@ func (shmlistScenario) Gen(r *Rng, tier string, opts map[string]string) interfac
 				case 9:
 					op = listOp{Kind: "chain", N: 2 + r.Intn(3)}
 				case 10:
-					op = listOp{Kind: "stamp", Which: r.Intn(4)}
+					if r.Chance(1, 2) {
+						op = listOp{Kind: "reset", Which: r.Intn(4)}
+					} else {
+						op = listOp{Kind: "stamp", Which: r.Intn(4)}
+					}
 				default:
 					op = listOp{Kind: "verify"}
 				}
@@ -161,7 +180,7 @@ func (shmlistScenario) Shrink(plan interface{}) []interface{} {
 	// simplify ops
 	for i := range p.Threads {
 		for j, op := range p.Threads[i].Ops {
-			if op.Kind == "allocn" || op.Kind == "chain" || op.Kind == "stamp" {
+			if op.Kind == "allocn" || op.Kind == "chain" || op.Kind == "stamp" || op.Kind == "reset" {
 				q := clone()
 				if op.Kind == "chain" {
 					q.Threads[i].Ops[j] = listOp{Kind: "recycle", Which: 0}
@@ -633,6 +652,18 @@ func (w *listWorld) thread(tid int, th listThread) {
 			}
 			s.writeIndex = len(s.data) / 2
 			s.update()
+			w.snapshot(h)
+		case "reset":
+			// the holder keeps the buffer for its next message and clears its header (as the read-buffer reuse of a
+			// pooled stream does): the buffer stays held and must still be accepted when it is recycled later
+			if len(mine) == 0 {
+				continue
+			}
+			h := mine[op.Which%len(mine)]
+			if c01 && !w.verify(h, "before reset") {
+				return
+			}
+			h.slice.reset()
 			w.snapshot(h)
 		case "verify":
 			for _, h := range mine {
